@@ -181,6 +181,18 @@ def check(case):
         raise Violation("mean_wrong", "mean %s vs exact %s (err %.3g > tol %.3g); %s" % (mean.tolist(), want_mean.tolist(), em, tol_mean, ctx))
     if not (ec <= tol_cov):
         raise Violation("cov_wrong", "covariance %s vs exact %s (err %.3g > tol %.3g); %s" % (cov.tolist(), want_cov.tolist(), ec, tol_cov, ctx))
+    # a second call on the SAME model, now observational: the law must not depend on the earlier call
+    obs = dict(case, do={}, noise={}, shift={})
+    law0 = exact_law(obs)
+    if law0["kappa"] <= KAPPA_MAX:
+        d0 = must(lib(model.sample, population=True), "LGANM.sample(population=True) after an intervened call")
+        t_m = 100 * EPS * p * law0["kappa"] * law0["normM"] * law0["normmu"] + 1e-300
+        t_c = 100 * EPS * p * law0["kappa"] * law0["normM"] ** 2 * law0["normD"] + 1e-300
+        e_m = np.abs(np.asarray(d0.mean, dtype=float) - np.array(X.vto_float(law0["mean"]))).max()
+        e_c = np.abs(np.asarray(d0.covariance, dtype=float) - np.array(X.to_float(law0["cov"])).reshape(p, p)).max()
+        if not (e_m <= t_m and e_c <= t_c):
+            raise Violation("observational_law_after_intervention", "after sample(%r) the observational population law of the same model is wrong "
+                            "(mean err %.3g, cov err %.3g); %s" % (kwargs, e_m, e_c, ctx))
     if not ((keep[0] == Warr).all() and (keep[1] == means).all() and (keep[2] == variances).all()):
         raise Violation("input_modified", "LGANM modified the caller's arrays; %s" % ctx)
     return _labels(case, law)
@@ -301,11 +313,11 @@ def _law_check(case):
 
 def plan(tier, seed):
     jobs = []
-    n = scaled(3200 if tier == "quick" else 60000)
+    n = scaled(12800 if tier == "quick" else 160000)
     shards = 16 if tier == "quick" else 64
     for k in range(shards):
         jobs.append({"sub": "law", "seed": seed, "shard": k, "n": max(1, n // shards), "p_max": 8 if tier == "quick" else 12, "cost": 10})
-    nr = scaled(800 if tier == "quick" else 20000)
+    nr = scaled(1600 if tier == "quick" else 20000)
     for k in range(4 if tier == "quick" else 16):
         jobs.append({"sub": "ranges", "seed": seed, "shard": k, "salt": 5, "n": max(1, nr // (4 if tier == "quick" else 16)), "cost": 2})
     return jobs
